@@ -418,3 +418,12 @@ def check(model, rep):
     r067(model, rep, arm)
     r050(model, rep, rule='R06.0')
     rep.rules['R06.0'] = 'np.<attr> used by the arm / robot modules exist (an Arm can be constructed at all)'
+    # ---------------------------------------------------------------- R06.8
+    from . import memocoh
+    rep.rule('R06.8', 'Jacobian / statics methods of Arm and Robot keep nothing between calls that a configuration setter can outdate: every method that '
+             'writes a field a kept value was computed from also discards the kept value (def-use closure, shared with R08.7)')
+    arm0 = model.cls(ARM, 'Arm')
+    allm = memocoh.all_methods(arm0)
+    q6 = [fi for name, fi in sorted(allm.items()) if name.startswith(('jacobian', 'staticForces')) or name in ('velocityAtEndEffector',)]
+    memocoh.check(rep, 'R06.8', arm0, q6, 'Jacobians / joint torques of an arm whose screws, home poses or base were changed')
+    rep.floor('R06.8', 'Jacobian / statics methods scanned', len(q6), 6)
